@@ -1,7 +1,9 @@
 """C19 DAG traversal and mapping visit every distinct node correctly.
 Ties: (T) Gen/Dispatch.lean regenerated from the live algorithm classes; (C) correspondence of unique pre/post traversal,
 cut-off traversal, map_expr_dag (MultiFunction and plain function) and DAGTraverser memoisation against the Lean model
-(Drivers/C19.lean) on random expression DAGs with controlled sharing."""
+(Drivers/C19.lean) on random expression DAGs with controlled sharing; (C') the same for state shared between calls: traversals with a
+caller-owned visited set, sequences sharing one set, map_expr_dags calls sharing vcache/rcache, DAGTraverser under keyword arguments with
+the postorder decorators (groups of expressions over one pool, Model/TraversalShared.lean, Props/C19Shared.lean)."""
 import random
 import common
 from common import Prop, Witness, Failure, LEAN, write_if_changed, run_cmd
@@ -22,6 +24,11 @@ def make_pool():
 def gen_expr(rng, pool0, nops):
     """random scalar expression DAG; operands are drawn from everything built so far, so the same
     sub-expression (same or equal object) recurs at different depths."""
+    return gen_pool(rng, pool0, nops)[-1]
+
+
+def gen_pool(rng, pool0, nops):
+    """the growing pool of gen_expr (leaves first, then every expression built)"""
     import ufl
     pool = list(pool0)
     for _ in range(nops):
@@ -52,7 +59,7 @@ def gen_expr(rng, pool0, nops):
             continue
         if isinstance(e, ufl.core.expr.Expr) and e.ufl_shape == () and not e.ufl_free_indices:
             pool.append(e)
-    return pool[-1]
+    return pool
 
 
 class Labels:
@@ -204,6 +211,334 @@ def py_oracle(e, lab, answers, modes):
     return bad
 
 
+# ---------------------------------------------------------------------------------------------------------------------
+# state shared between calls: caller-owned visited sets, map_expr_dags with shared vcache/rcache, DAGTraverser with kwargs
+# ---------------------------------------------------------------------------------------------------------------------
+M_KW = {0: {}, 1: {"scale": 2}, 2: {"shift": 2}, 3: {}, 4: {"scale": 2, "shift": 1}, 5: {"shift": 1, "scale": 2}}
+
+
+def split_trees(s):
+    out, depth, start = [], 0, None
+    for i, ch in enumerate(s):
+        if ch == "(":
+            if depth == 0:
+                start = i
+            depth += 1
+        elif ch == ")":
+            depth -= 1
+            if depth == 0:
+                out.append(s[start:i + 1])
+    return out
+
+
+def norm_vis(reply):
+    """'<yields> # <visited list>' -> the visited part as a sorted set (the model keeps a list, the code a set)"""
+    if " # " not in reply:
+        return reply
+    left, right = reply.split(" # ", 1)
+    return left + " # " + " ".join(sorted(set(split_trees(right))))
+
+
+def gen_group(rng, pool0, nops, k):
+    """k roots over ONE growing pool: the expressions share sub-DAGs; a root may be repeated, may be a sub-expression
+    of an earlier root, or may contain an earlier root"""
+    from ufl.corealg.traversal import pre_traversal
+    pool = gen_pool(rng, pool0, nops)
+    built = pool[len(pool0):] or pool
+    roots = []
+    for _ in range(k):
+        u = rng.random()
+        if roots and u < 0.12:
+            roots.append(rng.choice(roots))
+        elif roots and u < 0.32:
+            roots.append(rng.choice(list(pre_traversal(rng.choice(roots)))))
+        else:
+            roots.append(rng.choice(built[-5:] if rng.random() < 0.6 else built))
+    if rng.random() < 0.45:
+        # smaller expressions first and no repeats: then (almost always) no root is a sub-expression of an earlier one
+        uniq = []
+        for r in sorted(roots, key=lambda e: len(list(pre_traversal(e)))):
+            if r not in uniq:
+                uniq.append(r)
+        if len(uniq) >= 2:
+            roots = uniq
+    return roots, pool
+
+
+def distinct_nodes(e):
+    from ufl.corealg.traversal import pre_traversal
+    return set(pre_traversal(e))
+
+
+def is_closed(V):
+    return all(c in V for v in V for c in v.ufl_operands)
+
+
+def shared_cases(rng, roots, pool, lab, cut_types, directed=None):
+    """run the real code on one group of expressions; returns (cases, bad, stats) with cases = [(kind, request, impl answer)]"""
+    from ufl.corealg.traversal import (unique_post_traversal, unique_pre_traversal, cutoff_unique_post_traversal, pre_traversal)
+    from ufl.corealg.map_dag import map_expr_dags
+    from ufl.corealg.multifunction import MultiFunction
+    from ufl.corealg.dag_traverser import DAGTraverser
+    from ufl.core.expr import Expr
+    from ufl.core.terminal import Terminal
+    from functools import singledispatchmethod
+    import ufl.classes as C
+    cases, bad, stats = [], [], {}
+    ser = lab.ser
+    for r in roots:
+        ser(r)                       # assign labels in a fixed order
+    cutoff = [False] * Expr._ufl_num_typecodes_
+    for c in cut_types:
+        cutoff[c._ufl_typecode_] = True
+    allnodes = set()
+    for r in roots:
+        allnodes |= distinct_nodes(r)
+    cut_labels = sorted({lab.of(x) for x in allnodes if cutoff[x._ufl_typecode_]})
+    cl = ",".join(map(str, cut_labels)) or "-"
+    is_cut = lambda x: cutoff[x._ufl_typecode_]
+    nocut = [False] * Expr._ufl_num_typecodes_
+
+    def note(k):
+        stats[k] = stats.get(k, 0) + 1
+
+    # ---- 1a. one post-order traversal with an arbitrary caller-owned set -------------------------------------------
+    t = roots[-1]
+    others = sorted(allnodes, key=ser)
+    for variant in range(3):
+        mode = rng.choice(["closed", "subset", "subset+root", "foreign"]) if directed is None else directed[variant % len(directed)]
+        if mode == "closed":
+            V = set(unique_post_traversal(roots[0]))
+            if rng.random() < 0.5 and len(roots) > 2:
+                V |= set(unique_post_traversal(roots[1]))
+        else:
+            V = {x for x in others if rng.random() < 0.3}
+            if mode == "subset+root":
+                V.add(t)
+            if mode == "foreign":
+                V |= {x for x in pool if rng.random() < 0.2}
+        rev = variant % 2 if directed is None else variant % 2
+        use_cut = rev == 1 and rng.random() < 0.7
+        cutarr, cll = (cutoff, cl) if use_cut else (nocut, "-")
+        cutp = is_cut if use_cut else (lambda x: False)
+        vis = set(V)
+        if rev:
+            ys = list(cutoff_unique_post_traversal(t, cutarr, vis))
+            name = "cutoff_unique_post_traversal"
+        else:
+            ys = list(unique_post_traversal(t, vis))
+            name = "unique_post_traversal"
+        Vl = sorted(V, key=ser)
+        rq = "postv %s %d %s" % (cll, rev, " | ".join([ser(t)] + [ser(v) for v in Vl]))
+        cases.append(("postv", rq, " ".join(ser(y) for y in ys) + " # " + " ".join(sorted({ser(v) for v in vis}))))
+        note("postv:" + mode + (":root-in-set" if t in V else ""))
+        # the statement of C19_post_visited read on the implementation's output
+        pos = {y: i for i, y in enumerate(ys)}
+        if len(ys) != len(set(ys)):
+            bad.append("%s(e, visited) yields a node twice" % name)
+        if not ys or ys[-1] != t:
+            bad.append("%s(e, visited) does not yield the root last" % name)
+        if any(y in V for y in ys[:-1]):
+            bad.append("%s(e, visited) yields a node that was in the caller's visited set" % name)
+        if vis != V | set(ys):
+            bad.append("%s(e, visited): the caller's set is not the initial set plus the yielded nodes" % name)
+        if any((c not in V) and pos.get(c, 10**9) > pos[y] for y in ys if not cutp(y) for c in y.ufl_operands):
+            bad.append("%s(e, visited) yields a user before an operand that was not in the caller's set" % name)
+        reach, todo = {t}, [t]
+        while todo:
+            n = todo.pop()
+            if not cutp(n):
+                for c in n.ufl_operands:
+                    if c not in V and c not in reach:
+                        reach.add(c); todo.append(c)
+        if set(ys) != reach:
+            bad.append("%s(e, visited) does not yield exactly the nodes reachable through operands outside the caller's set" % name)
+        if not use_cut and is_closed(V) and set(ys) != {t} | (distinct_nodes(t) - V):
+            bad.append("%s(e, visited) with an operand-closed set does not yield exactly the not yet visited subexpressions" % name)
+
+    # ---- 1b. unique_pre_traversal with a caller-owned set ----------------------------------------------------------
+    V = set(unique_pre_traversal(roots[0])) if rng.random() < 0.4 else {x for x in others if rng.random() < 0.3}
+    vis = set(V)
+    ys = list(unique_pre_traversal(t, vis))
+    cases.append(("prev", "prev " + " | ".join([ser(t)] + [ser(v) for v in sorted(V, key=ser)]), " ".join(ser(y) for y in ys)))
+    if len(ys) != len(set(ys)) or ys[0] != t or any(y in V for y in ys[1:]) or vis != V | set(ys):
+        bad.append("unique_pre_traversal(e, visited): duplicate / root not first / initially visited node yielded / caller's set not updated")
+    if is_closed(V) and set(ys) != {t} | (distinct_nodes(t) - V):
+        bad.append("unique_pre_traversal(e, visited) with an operand-closed set does not yield exactly the not yet visited subexpressions")
+
+    # ---- 1c. a sequence of traversals sharing one set --------------------------------------------------------------
+    for rev in (0, 1):
+        use_cut = rev == 1 and rng.random() < 0.5
+        cutarr, cll = (cutoff, cl) if use_cut else (nocut, "-")
+        shared, yss = set(), []
+        already = []
+        for r in roots:
+            already.append(r in shared)
+            yss.append(list(cutoff_unique_post_traversal(r, cutarr, shared) if rev else unique_post_traversal(r, shared)))
+        rq = "seq %s %d %s" % (cll, rev, " | ".join(ser(r) for r in roots))
+        cases.append(("seq", rq, " | ".join(" ".join(ser(y) for y in ys) for ys in yss) + " # " + " ".join(sorted({ser(v) for v in shared}))))
+        flat = [y for ys in yss for y in ys]
+        name = "cutoff_unique_post_traversal" if rev else "unique_post_traversal"
+        if not use_cut:
+            if set(flat) != allnodes:
+                bad.append("%s over several expressions sharing one visited set misses or invents subexpressions" % name)
+            if shared != allnodes:
+                bad.append("%s over several expressions: the shared set does not end up holding every node" % name)
+        indep = not any(roots[j] in distinct_nodes(roots[i]) for j in range(len(roots)) for i in range(j))
+        if indep:
+            note("seq:independent-roots")
+            if len(flat) != len(set(flat)):
+                bad.append("%s over several expressions sharing one visited set lists a node twice although no expression is a subexpression of an earlier one" % name)
+        else:
+            note("seq:root-already-visited")
+        # in every case a repeated entry is the root of a traversal that started with its root already in the set
+        seen = set()
+        for ys, was, r in zip(yss, already, roots):
+            for y in ys:
+                if y in seen and not (y == r and was):
+                    bad.append("%s over several expressions sharing one visited set repeats a node that is not an already visited root" % name)
+                seen.add(y)
+
+    # ---- 2. map_expr_dags over two groups sharing vcache / rcache ---------------------------------------------------
+    k1 = rng.randint(1, max(1, len(roots) - 1))
+    g1, g2 = roots[:k1], (roots[k1:] or roots[-1:])
+    for hk in (0, 1):
+        compress = rng.random() < 0.6
+        lf = (lambda o: lab.of(o)) if hk == 0 else (lambda o: lab.of(o) % 2)
+        use_cut = bool(cut_labels) and rng.random() < 0.6
+        if use_cut:
+            ns = {"expr": lambda self, o, *ops: "<%d%s>" % (lf(o), "".join(" " + x for x in ops)),
+                  "terminal": lambda self, o, *ops: "<%d>" % lf(o)}
+            for c in cut_types:
+                ns[c._ufl_handler_name_] = lambda self, o: "<%d>" % lf(o)
+            F = type("MF", (MultiFunction,), ns)()
+        elif rng.random() < 0.5:
+            F = type("MF", (MultiFunction,), {"expr": lambda self, o, *ops: "<%d%s>" % (lf(o), "".join(" " + x for x in ops))})()
+        else:
+            F = lambda o, *ops: "<%d%s>" % (lf(o), "".join(" " + x for x in ops))
+        vc, rc = {}, {}
+        r1 = map_expr_dags(F, g1, compress=compress, vcache=vc, rcache=rc)
+        r2 = map_expr_dags(F, g2, compress=compress, vcache=vc, rcache=rc)
+        rq = "maps %s %d %d %s || %s" % (cl if use_cut else "-", int(compress), hk, " | ".join(ser(r) for r in g1), " | ".join(ser(r) for r in g2))
+        cases.append(("maps", rq, " | ".join(r1) + " || " + " | ".join(r2) + " # %d %d" % (len(vc), len(rc))))
+        note("maps:" + ("cut" if use_cut else "nocut") + (":compress" if compress else ""))
+
+        def rec(o):
+            if use_cut and is_cut(o):
+                return "<%d>" % lf(o)
+            return "<%d%s>" % (lf(o), "".join(" " + rec(c) for c in o.ufl_operands))
+        if list(r1) + list(r2) != [rec(e) for e in g1 + g2]:
+            bad.append("map_expr_dags over several expressions with shared vcache/rcache differs from the per-expression recursion over the tree")
+
+    # ---- 3. DAGTraverser with keyword arguments, decorators, two root calls on one traverser ------------------------
+    arity = {C.Sum: 2, C.Product: 2, C.Division: 2, C.Power: 2, C.Conditional: 3, C.LT: 2, C.Sin: 1, C.Cos: 1, C.Exp: 1, C.Indexed: 2}
+    table = {}
+    for typ, ar in arity.items():
+        u = rng.random()
+        if u < 0.45:
+            continue                                          # default: the @postorder rule registered for Expr
+        if u < 0.75:
+            table[typ] = ("C", [rng.randrange(ar) for _ in range(rng.randint(0, 3))])
+        else:
+            table[typ] = ("X", [(rng.randrange(ar), rng.choice([0, 0, 1, 2, 3, 4, 5])) for _ in range(rng.randint(0, 3))])
+
+    def fmt(o, kw, ops):
+        return "<%d|scale=%s,shift=%s%s>" % (lab.of(o), kw.get("scale", "-"), kw.get("shift", "-"), "".join(" " + r for r in ops))
+
+    def make_method(kind):
+        if kind[0] == "C":
+            @DAGTraverser.postorder_only_children(list(kind[1]))
+            def m(self, o, *ops, **kw):
+                return fmt(o, kw, ops)
+            return m
+
+        def mx(self, o, **kw):
+            return fmt(o, kw, [self(o.ufl_operands[i], **(kw if mm == 0 else M_KW[mm])) for i, mm in kind[1]])
+        return mx
+
+    class T(DAGTraverser):
+        @singledispatchmethod
+        def process(self, o, **kw):
+            raise AssertionError
+
+        @process.register(Expr)
+        @DAGTraverser.postorder
+        def _(self, o, *ops, **kw):
+            return fmt(o, kw, ops)
+
+        @process.register(Terminal)
+        def _(self, o, **kw):
+            return fmt(o, kw, ())
+        for _typ, _kind in table.items():
+            process.register(_typ)(make_method(_kind))
+
+    def recd(o, kw):
+        kind = table.get(type(o))
+        if kind is None:
+            return fmt(o, kw, [recd(c, kw) for c in o.ufl_operands])
+        if kind[0] == "C":
+            return fmt(o, kw, [recd(o.ufl_operands[i], kw) for i in kind[1]])
+        return fmt(o, kw, [recd(o.ufl_operands[i], kw if mm == 0 else M_KW[mm]) for i, mm in kind[1]])
+    spec = []
+    for typ, kind in table.items():
+        l = lab.ids.get(typ.__name__)
+        if l is None:
+            continue
+        ent = [(i, 0) for i in kind[1]] if kind[0] == "C" else kind[1]
+        spec.append("%d:%s" % (l, ",".join("%d.%d" % im for im in ent)))
+    for rep in range(2):
+        t1, t2 = (roots[0], roots[-1]) if rep == 0 else (t, t)
+        m1, m2 = rng.choice([1, 2, 3, 4, 5]), rng.choice([1, 2, 3, 4, 5])
+        compress = rng.random() < 0.5
+        tr = T(compress=compress)
+        a1 = tr(t1, **M_KW[m1])
+        a2 = tr(t2, **M_KW[m2])
+        rq = "dagk %d %s %d %d %s | %s" % (int(compress), ";".join(spec) or "-", m1, m2, ser(t1), ser(t2))
+        cases.append(("dagk", rq, "%s | %s # %d %d" % (a1, a2, len(tr._visited_cache), len(tr._result_cache))))
+        note("dagk:" + ("same-root" if t1 == t2 else "two-roots") + (":kw-differ" if M_KW[m1] != M_KW[m2] else ""))
+        if a1 != recd(t1, M_KW[m1]) or a2 != recd(t2, M_KW[m2]):
+            bad.append("DAGTraverser with keyword arguments (postorder / postorder_only_children / explicit rules, two root calls on one "
+                       "traverser) differs from plain recursion with the same keyword arguments at every node")
+    stats["dagk:rules"] = stats.get("dagk:rules", 0) + len(spec)
+    return cases, bad, stats
+
+
+def integrand_oracle(roots, pool):
+    """map_integrand_dags = map_expr_dag per integrand (fresh caches for every integrand): compare with the recursion over the tree"""
+    import ufl
+    from ufl.algorithms.map_integrands import map_integrand_dags
+    from ufl.corealg.multifunction import MultiFunction
+    f, g = pool[0], pool[1]
+
+    class Swap(MultiFunction):
+        expr = MultiFunction.reuse_if_untouched
+
+        def coefficient(self, o):
+            return g if o == f else o
+
+    def rec(o):
+        if o._ufl_is_terminal_:
+            return g if o == f else o
+        ops = [rec(c) for c in o.ufl_operands]
+        return o if all(a == b for a, b in zip(ops, o.ufl_operands)) else o._ufl_expr_reconstruct_(*ops)
+    es = [e for e in roots if not e._ufl_is_terminal_]
+    if not es:
+        return []
+    form = None
+    mesh = ufl.domain.extract_unique_domain(f)
+    for i, e in enumerate(es):
+        itg = e * ufl.dx(i + 1, domain=mesh)
+        form = itg if form is None else form + itg
+    for compress in (True, False):
+        out = map_integrand_dags(Swap(), form, compress=compress)
+        a, b = form.integrals(), out.integrals()
+        if len(a) != len(b):
+            continue
+        if any(y.integrand() != rec(x.integrand()) for x, y in zip(a, b)):
+            return ["map_integrand_dags over a form with several integrals differs from the per-integrand recursion over the tree"]
+    return []
+
+
 def dispatch_oracle():
     """nearest-ancestor dispatch read literally on live instances of every algorithm class"""
     from translate.dispatch import all_subclasses
@@ -244,15 +579,20 @@ def dispatch_oracle():
 
 class C19(Prop):
     pid = "C19"
-    lean_modules = ["UflVerif.Props.C19", "UflVerif.Props.C19Dispatch"]
-    min_theorems = 9
+    lean_modules = ["UflVerif.Props.C19", "UflVerif.Props.C19Shared", "UflVerif.Props.C19Dispatch"]
+    min_theorems = 27
     trusted = ["translator harness/translate/dispatch.py: reads each algorithm class's own `_handlers_cache` table / singledispatch registry and the live MROs",
                "correspondence harness/props/c19.py + Drivers/C19.lean: expressions are abstracted to labelled trees (label = operator type or terminal repr), "
                "structural equality of trees standing for ufl `==`/hash — that abstraction is part of the trusted base (C13 is the property about `==`/hash)",
                "modelled rather than verified: the iterative stack loops of traversal.py are modelled by structural recursion (post) and a fuelled worklist (pre); "
+               "a DAGTraverser rule is modelled by the list of self(operand i, **kw) calls it makes plus a combine function (rules that call self on "
+               "nodes other than their operands are outside the model); Python dict/set semantics of visited/vcache/rcache are modelled by association lists; "
                "functools.singledispatch's C3 resolution is only checked against the regenerated table"]
     assumptions = ["handlers are deterministic functions of (node, processed operands[, keyword context])",
-                   "`visited`/`vcache`/`rcache` start empty (the default); shared caches across calls are covered only by the soundness invariant CacheOK for DAGTraverser"]
+                   "a caller-supplied `vcache` / DAGTraverser visited cache only holds results of the same function (empty, or left by earlier calls): "
+                   "hypotheses `hvc` of C19_map_dags_shared_cache and CacheOK2 of C19_dag_kwargs; `visited` and `rcache` are arbitrary",
+                   "`==` on handler results is structural equality (so the object `compress` substitutes has the same value)",
+                   "postorder_only_children indices are within the operand range (the code raises IndexError otherwise; the model skips them)"]
 
     def regenerate(self, ctx):
         text, self.stats = dispatch.render()
@@ -266,7 +606,7 @@ class C19(Prop):
         pool = make_pool()
         reqs, answers, cases, self.bad = [], [], [], []
         cut_choices = [[C.Sin], [C.Division], [C.Conditional], [C.Sum, C.Exp], [C.Power, C.Indexed], []]
-        shared_cases = 0
+        n_shared = 0
         for i in range(n):
             e = gen_expr(rng, pool, rng.randint(3, 14))
             if i == 0:   # corpus: sharing at two depths under one user, deeper occurrence first
@@ -286,9 +626,38 @@ class C19(Prop):
             from ufl.corealg.traversal import pre_traversal
             nodes = list(pre_traversal(e))
             if len(nodes) > len(set(nodes)) + 1:
-                shared_cases += 1
+                n_shared += 1
             for k, (rq, ans) in a.items():
                 reqs.append(rq); answers.append(ans); cases.append((k, rq))
+        # --- shared state: caller-owned visited sets, map_expr_dags with shared caches, DAGTraverser with kwargs ---
+        import ufl
+        rng2 = random.Random(ctx.seed * 104729 + 1919)
+        ng = 70 if ctx.quick else 900
+        sstats, cross_shared = {}, 0
+        kinds = {}
+        for gi in range(ng):
+            roots, gpool = gen_group(rng2, pool, rng2.randint(4, 14), rng2.randint(2, 4))
+            directed = None
+            if gi == 0:      # the witness of C19_shared_visited_sequence_root_repeat on the real classes: sin(f) then f
+                roots, directed = [ufl.sin(pool[0]), pool[0]], ["subset+root", "closed", "subset"]
+            if gi == 1:      # the same expression twice; equal but distinct objects
+                q = pool[0] * pool[1]
+                roots, directed = [ufl.exp(q) + ufl.sin(q), ufl.exp(pool[0] * pool[1]) + ufl.sin(q)], ["closed", "subset+root", "foreign"]
+            if gi == 2:      # second root contains the first twice, at two depths
+                r = ufl.sin(pool[0]) * pool[1]
+                roots, directed = [r, ufl.exp(r) / r, r + pool[2]], ["closed", "closed", "subset"]
+            lab = Labels()
+            sc, sbad, st = shared_cases(rng2, roots, gpool, lab, rng2.choice(cut_choices), directed)
+            for w in sbad + integrand_oracle(roots, pool):
+                self.bad.append((w, dict(expr=" ; ".join(repr(r) for r in roots), modes=[])))
+            for k, v in st.items():
+                sstats[k] = sstats.get(k, 0) + v
+            ds = [distinct_nodes(r) for r in roots]
+            if any(len(ds[i] & ds[j]) > 1 for i in range(len(ds)) for j in range(i)):
+                cross_shared += 1
+            for k, rq, ans in sc:
+                reqs.append(rq); answers.append(ans); cases.append((k, rq))
+                kinds[k] = kinds.get(k, 0) + 1
         rc, out = run_cmd(["lake", "env", "lean", "--run", "Drivers/C19.lean"], cwd=LEAN, input="\n".join(reqs) + "\n", timeout=3000)
         model = out.splitlines()
         fails = []
@@ -296,17 +665,28 @@ class C19(Prop):
             fails.append(Failure("correspondence", "C19 driver", "exit %d, %d replies for %d requests: %s" % (rc, len(model), len(reqs), out[-300:])))
         else:
             for (k, rq), ia, ma in zip(cases, answers, model):
+                if k in ("postv", "seq"):
+                    ma = norm_vis(ma)
                 if ia != ma and len(fails) < 10:
                     fails.append(Failure("correspondence", k, "request: %s | impl: %s | model: %s" % (rq[:300], ia[:300], ma[:300]), case=rq))
         ev.cov["evaluations"] = len(reqs)
         ev.cov["distinct_nontrivial"] = len({rq for k, rq in cases if k == "post" and rq.count("(") >= 6})
-        ev.cov["cases_with_shared_subexpressions"] = shared_cases
+        ev.cov["cases_with_shared_subexpressions"] = n_shared
+        ev.cov["shared_state_groups"] = ng
+        ev.cov["shared_state_groups_with_nodes_common_to_two_roots"] = cross_shared
+        ev.cov["shared_state_requests"] = kinds
+        ev.cov["shared_state_distribution"] = sstats
         ev.cov["traces_validated_against_impl"] = len(reqs)
         st = getattr(self, "stats", {})
         ev.cov["dispatch_tables"] = st
         ev.cov["rule"] = ("random scalar expression DAGs (3..14 operator applications over 7 leaves; operands drawn from all earlier sub-expressions, "
                           "equal-but-distinct objects rebuilt) x {unique post, unique pre, cut-off post, map_expr_dag with MultiFunction (+cut-off handlers), "
                           "map_expr_dag with plain function, DAGTraverser with 8-entry keyword-context table}; non-trivial = distinct tree with >= 6 nodes; "
+                          "plus groups of 2..4 roots over one pool (repeated roots, roots that are sub-expressions of earlier roots, roots containing earlier "
+                          "roots) x {post-order / cut-off post-order / pre-order with a caller-owned visited set that is operand-closed, an arbitrary subset, "
+                          "contains the root, or contains foreign nodes; sequences sharing one set; two map_expr_dags calls sharing vcache and rcache "
+                          "(function / MultiFunction / cut-off handlers, compress on/off, injective and non-injective handler); one DAGTraverser called on two "
+                          "roots under two keyword contexts with @postorder, @postorder_only_children(random indices) and explicit kwargs-changing rules}; "
                           "plus the translator tie over %s algorithm classes x %s types" % (st.get("algs"), st.get("types")))
         ev.cov["samples"] = [dict(request=rq[:200], reply=a[:200]) for (k, rq), a in list(zip(cases, answers))[:6]]
         return fails
